@@ -20,6 +20,7 @@ from .. import decode_engine as de
 from .. import framer_engine as fe
 from .. import gen_streams, sockdouble, stream_corpus
 from ..common import digest, rng
+from ..decode_rec import frame_of as frame_of_
 
 FINISH = dict(
     level="model_checking",
@@ -49,6 +50,14 @@ def run(tier, rep):
         want = [it[1] for it in items if it[0] == "frame"] if parsed else [it[1] for it in items if it[0] in ("frame", "frame0")]
         tr.add(data, kind=kind, validate=rnd.choice([0, 1]), parsed=parsed, quit=quit, seg=seg, bufsize=rnd.choice([7, 512, 4096, 4096]),
                rnd=rnd, use_iter=bool(i % 2), want=want, nitems=len(items), nframes=len(want))
+    # large but legal: more than a thousand consecutive foreign items between two frames, and
+    # thousands of frames through one reader object
+    f1, f2 = frame_of_(pool[0]), frame_of_(pool[1])
+    for kind_, filler in (("nmea", gen_streams.NMEA_OK[1]), ("ubx", gen_streams.ubx(rnd, 4))):
+        data = f1 + filler * (1300 if quick else 3000) + f2
+        tr.add(data, kind="bytesio", validate=1, parsed=True, quit=1, rnd=rnd, want=[f1, f2], nitems=1302, nframes=2)
+    many = [frame_of_(rnd.choice(pool[:20])) for _ in range(1500 if quick else 6000)]
+    tr.add(b"".join(many), kind="buffered", validate=1, parsed=False, quit=1, rnd=rnd, want=many, nitems=len(many) + 1, nframes=len(many))
     verdicts = tr.judge()
     for tid, v in verdicts.items():
         m = tr.meta[tid]
